@@ -28,6 +28,7 @@ Theorem C14_distance_is_norm :
   forall (u : vec2 R) (d : R), pdot Rops u u = 1 -> 0 <= d ->
     sqrt (pdot Rops (pscale Rops d u) (pscale Rops d u)) = d.
 Proof. exact ray_hit_distance. Qed.
+Print Assumptions C14_distance_is_norm.
 
 (* Convex region with ANY number of edges, written as half-planes n_i . x <= c_i with the centre strictly inside (c_i > 0);
    for a direction u each edge is the pair (m_i, c_i) = (n_i . u, c_i).  The radial distance is exit_t = min over the edges
@@ -47,6 +48,7 @@ Print Assumptions C14_convex_radial_distance.
 Theorem C14_convex_radial_distance_exists :
   forall H : list hp, (exists h, In h H /\ 0 < fst h) -> exists t, exit_t H = Some t.
 Proof. exact ray_exit_exists. Qed.
+Print Assumptions C14_convex_radial_distance_exists.
 
 (* Rounded corner of a spheropolygon: along the unit direction u the circle of radius r about the vertex v is met at
    t = u.v + sqrt(r^2 - (u x v)^2), and no point of the circle on that line is farther *)
@@ -71,6 +73,7 @@ Theorem C14_any_real_angle :
     (cos (theta + 2 * INR k * PI) = cos theta /\ sin (theta + 2 * INR k * PI) = sin theta)
     /\ (cos (theta - 2 * INR k * PI) = cos theta /\ sin (theta - 2 * INR k * PI) = sin theta).
 Proof. exact direction_periodic. Qed.
+Print Assumptions C14_any_real_angle.
 
 (* partial: the code's sector-selection (atan2 binning, slope/intercept branches) for polygons and the
    arc patches of spheropolygons are not modelled step by step; the implementation's output is judged
